@@ -4,7 +4,7 @@ P="$1"; shift
 REV=""
 if [ "$1" = "-R" ]; then REV="-R"; shift; fi
 [ "$1" = "--" ] && shift
-git -C /repo apply $REV "$(realpath "$P")" || { echo "patch does not apply"; exit 3; }
+git -C "${PICOTOOL_REPO:-/repo}" apply $REV "$(realpath "$P")" || { echo "patch does not apply"; exit 3; }
 "$@"; RC=$?
-git -C /repo checkout -- . 
+git -C "${PICOTOOL_REPO:-/repo}" checkout -- . 
 exit $RC
